@@ -112,17 +112,17 @@ def run_case(case):
                  'exception (%r), a freshly loaded engine raises a wrapper around None (%r)' % (t, c, r, va, vb),
                  [[t2, c2, r2, a2, b2] for (t2, c2, r2, a2, b2) in real[:6]])
         return True
-      if lookup_key_has_error(hr.doc, [fm.get((x[0], x[1]), '') for x in real]):
-        out.fail('C05:stale:lookup-key-cell-error',
-                 'cell %s.%s[%s]: the lookup index is not updated for rows whose key cell became an error value '
-                 '(incremental %r, fresh %r; formula %r)' % (t, c, r, va, vb, fm.get((t, c))),
-                 [[t2, c2, r2, a2, b2] for (t2, c2, r2, a2, b2) in real[:6]])
-        return True
       if all(is_keyerror(x[3]) != is_keyerror(x[4]) for x in real) and \
          allfeats & set(['lookupRecords', 'lookupOne', 'order_by', 'sort_by', 'PREVIOUS', 'NEXT', 'RANK']):
         out.fail('C05:stale:lookup-KeyError-stale',
                  'cell %s.%s[%s]: lookup on a column that was removed/added keeps its old result '
                  '(incremental %r, fresh %r)' % (t, c, r, va, vb),
+                 [[t2, c2, r2, a2, b2] for (t2, c2, r2, a2, b2) in real[:6]])
+        return True
+      if lookup_key_has_error(hr.doc, [fm.get((x[0], x[1]), '') for x in real]):
+        out.fail('C05:stale:lookup-key-cell-error',
+                 'cell %s.%s[%s]: the lookup index is not updated for rows whose key cell became an error value '
+                 '(incremental %r, fresh %r; formula %r)' % (t, c, r, va, vb, fm.get((t, c))),
                  [[t2, c2, r2, a2, b2] for (t2, c2, r2, a2, b2) in real[:6]])
         return True
       out.fail('C05:stale:%s:%s' % (sig, '+'.join(feats)),
